@@ -214,7 +214,11 @@ def usable(model):
     run into the watchdog."""
     e = model.get('extrema_opts')
     if isinstance(e, dict) and 'loc_pad_opts' in e:
-        return norm(e['loc_pad_opts']) == {'mode': 'reflect', 'reflect_type': 'odd'}
+        if norm(e['loc_pad_opts']) != {'mode': 'reflect', 'reflect_type': 'odd'}:
+            return False
+    i = model.get('imf_opts')
+    if isinstance(i, dict) and isinstance(i.get('sd_thresh'), float) and i['sd_thresh'] < 1e-12:
+        return False        # a threshold of 1e-24 is legitimate but runs every extraction to the iteration limit (~0.5 s a call)
     return True
 
 
